@@ -1,4 +1,5 @@
 import Swim.Util.Parse
+import Swim.Drv.C19
 import Swim.Model.Lifecycle
 /-! Driver side of the simulator verdict lines (C04 C05 C20): the harness reports what it observed;
 the classification rules live here. -/
@@ -103,6 +104,7 @@ def tableMismatch (tb : String) : Option String := Id.run do
 
 def handleC20 (kind : String) (fs : List (String × String)) : String :=
   match kind with
+  | "probe" => Swim.Drv.C19.handle kind fs
   | "leak" => leak fs
   | "stuck" => stuck fs
   | "alone" =>
